@@ -19,6 +19,7 @@ CHECKS = {
  "C15": (True, "Bounded model checking of the array filters through the real lexer, parser, ApplyFilter and values.Call: element payloads (all int values, short strings, nil, maps with present/absent keys) are solver variables, length and Go representation are forked, and sort (permutation + ascending), keyed sort, reverse, uniq, compact, concat, first/last/size, join and map are compared with references; the input (including spare capacity) is checked unchanged and every store into it is trapped by the engine's frame check.", "DESIGN.md §4 C15"),
  "C16": (True, "Bounded model checking of the string filters through the real call layer with strings of symbolic bytes (any byte values; valid UTF-8 assumed where the statement requires it) and integer arguments over all 64-bit values: append/prepend, upcase/downcase/capitalize, strip family, size, slice, replace/remove family, split/join round trip, newline filters, url_encode/url_decode round trip, non-string receivers; truncate/truncatewords/escape on a forked text and length set (regexp/html are native, concrete only).", "DESIGN.md §4 C16"),
  "C17": (True, "Bounded model checking of the numeric filters with operands as SMT floating-point variables (all finite float64) and integers of every width: plus/minus/times against the IEEE operation, divided_by dispatch over every divisor kind incl. zero, ceil/floor bracketing and integrality, round half up, abs; modulo and string operands on a forked operand set.", "DESIGN.md §4 C17"),
+ "C18": (True, "Bounded model checking of representation independence: each logical value (integer, float, string, array, map; payloads are solver variables) is rendered in the canonical Go representation and in another one (every integer width, float32, typed slice, fixed array, typed map, ordered YAML map, []byte, pointer, Drop at the top or nested) through a corpus of templates covering printing, comparison, arithmetic, indexing, loops and modifiers, filters and case; outputs and error-ness must agree.", "DESIGN.md §4 C18"),
  "C09": (True, "Bounded model checking of values.Equal/Less/Contains and the grammar's operator actions: every ordered pair of scalar kinds is forked, payloads (all integers of each width, finite floats, short strings, small arrays) are solver variables, and the documented comparison rules are asserted as a reference written from the statement.", "DESIGN.md §4 C09"),
 }
 ALL = ["C%02d" % i for i in range(1, 21)]
